@@ -35,7 +35,7 @@
 
 enum { EV_SEC_BEGIN = 1, EV_SEC_END, EV_CALL_ENT, EV_CALL_RET, EV_CB_RUN, EV_CB_DONE, EV_BAR_ENT, EV_BAR_RET, EV_POLL_START, EV_POLL_TRUE };
 enum { CF_CB_WAITED = 0, CF_HELPER_ASLEEP_AT_ENQ = 1, CF_HELPER_FREED_WITH_CBS = 2, CF_BARRIER_PENDING = 3, CF_POLL_WHILE_ACTIVE = 4,
-       CF_CHAIN = 5, CF_PERCPU = 6, CF_PERTHREAD = 7, CF_BARRIER_MULTI = 8, CF_PASSIVE_DRAIN = 9, CF_BARRIER_CONCURRENT = 10, CF_POLL_WRAP = 11, CF_BURST = 12 };
+       CF_CHAIN = 5, CF_PERCPU = 6, CF_PERTHREAD = 7, CF_BARRIER_MULTI = 8, CF_PASSIVE_DRAIN = 9, CF_BARRIER_CONCURRENT = 10, CF_POLL_WRAP = 11, CF_BURST = 12, CF_POLL_AGED = 13 };
 
 struct obj { struct rcu_head head, head2; int id, chain; unsigned long val, chk; };
 
@@ -50,7 +50,7 @@ static int sec_ctr;
 static int outstanding;		/* callbacks enqueued and not yet finished */
 static int barriers_active;
 struct tstate { int depth; int secid[8]; };
-static struct tstate ts[64];
+static struct tstate ts[128];
 static struct urcu_gp_poll_state handles[MAXH];
 static int h_valid[MAXH], h_true[MAXH];
 static unsigned long h_start[MAXH];
@@ -368,6 +368,41 @@ static NS void final_oracles(void)
 }
 
 extern void F(start_poll_synchronize_rcu_verif_set_gp_id)(unsigned long id);
+/* cfg pollwarp k: once every thread has finished, T0 polls every handle of the case until it is true, fast-forwards the polling counter (URCU_VERIF hook)
+ * by a large number of grace periods - the handles age by that much - and polls them again: a handle that has completed stays completed however
+ * old it gets (up to half the counter range); then a fresh handle is taken and must complete as usual. */
+static NS int handle_valid(int h) { return h_valid[h]; }
+static NS unsigned long handle_id(int h) { return handles[h].grace_period_id; }
+static void poll_warp_phase(void)
+{
+	static const unsigned long deltas[] = { 0, (1ul << 31) - 1, 1ul << 31, (1ul << 31) + 1, (1ul << 32) - 1, 1ul << 32, (1ul << 32) + 1, 1ul << 62, 1000, 3ul << 31 };
+	long k = ds_cfg("pollwarp", 0);
+	if (k <= 0 || k >= (long)(sizeof deltas / sizeof *deltas)) return;
+	unsigned long maxid = 0; int any = 0;
+	for (int h = 0; h < MAXH; h++) if (handle_valid(h)) {
+		while (!do_poll(h)) ds_yield();
+		if (!any || (long)(handle_id(h) - maxid) > 0) maxid = handle_id(h);
+		any = 1;
+	}
+	if (!any) return;
+	ds_flag(CF_POLL_AGED);
+	F(start_poll_synchronize_rcu_verif_set_gp_id)(maxid + 1 + deltas[k]);	/* every handle is true, so the worker is idle and its counter is maxid + 1 */
+	for (int h = 0; h < MAXH; h++) if (handle_valid(h)) (void) do_poll(h);
+	int fresh = -1; for (int h = MAXH - 1; h >= 0; h--) if (!handle_valid(h)) { fresh = h; break; }
+	if (fresh < 0) return;
+#ifdef FL_QSBR
+	F(thread_online)();
+#endif
+	poll_start_ent(fresh);
+	struct urcu_gp_poll_state st = F(start_poll_synchronize_rcu)();
+	poll_start_ret(fresh, st);
+#ifdef FL_QSBR
+	F(thread_offline)();
+#endif
+	while (!do_poll(fresh)) ds_yield();
+	for (int h = 0; h < MAXH; h++) if (handle_valid(h)) (void) do_poll(h);
+}
+
 static int tids[16];
 static void scenario(void)
 {
@@ -383,6 +418,8 @@ static void scenario(void)
 	for (int t = 1; t < np; t++) tids[t] = ds_spawn(thread_main, (void *)(long)t);
 	run_program(0, 0);
 	for (int t = 1; t < np; t++) ds_join(tids[t]);
+	ds_op_begin(98);
+	poll_warp_phase();
 	ds_op_begin(99);
 	if (ds_cfg("drain", 1)) {
 		F(barrier)(); F(barrier)();
